@@ -189,9 +189,37 @@ func ruleR22() *Rule {
 
 			// (b) every hand-out of a non-nil index is preceded by a reference-taking event
 			reachCCE := p.reachesFunc(func(f *ssa.Function) bool { return f == cce })
-			for _, fn := range handOut {
-				fn := fn
-				tr := func(in ssa.Instruction, ev uint64, _ bool) []uint64 {
+			// a method of the entry other than load() takes the reference only if every way through it does
+			// (`(ce *cacheEntry) loadFor(...)` with an early return that reads ce.index without load() does not)
+			mustRefMemo := map[*ssa.Function]bool{}
+			var trFor func(self *ssa.Function) transferFn
+			var mustRef func(f *ssa.Function) bool
+			mustRef = func(f *ssa.Function) bool {
+				if v, ok := mustRefMemo[f]; ok {
+					return v
+				}
+				mustRefMemo[f] = false // (recursion)
+				if len(f.Blocks) == 0 || !addsRef(f) {
+					return false
+				}
+				pa := newPathAnalysis(f, trFor(f))
+				pa.run(0)
+				all := true
+				for _, ret := range returnsOf(f) {
+					if !pa.reachable(ret.Block()) {
+						continue
+					}
+					for _, ev := range pa.statesBefore(ret) {
+						if ev&1 == 0 {
+							all = false
+						}
+					}
+				}
+				mustRefMemo[f] = all
+				return all
+			}
+			trFor = func(self *ssa.Function) transferFn {
+				return func(in ssa.Instruction, ev uint64, _ bool) []uint64 {
 					cs, ok := in.(ssa.CallInstruction)
 					if !ok {
 						return nil
@@ -200,15 +228,27 @@ func ruleR22() *Rule {
 					if f == nil {
 						return nil
 					}
-					if f == load || (reachCCE[f] && p.InZap(f)) || (isHandOut[f] && f != fn) {
+					if f.String() == "sync/atomic.AddInt64" {
+						if sn, fld, _, ok := fieldOf(cs.Common().Args[0]); ok && sn == "cacheEntry" && fld == "refs" {
+							if k, ok := constInt64(cs.Common().Args[1]); ok && k == 1 {
+								return []uint64{ev | 1}
+							}
+						}
+						return nil
+					}
+					if f == load || (reachCCE[f] && p.InZap(f)) || (isHandOut[f] && f != self) {
 						return []uint64{ev | 1}
 					}
-					// the reference taken directly (load() inlined: incHit(); addRef())
-					if p.InZap(f) && f.Signature.Recv() != nil && isNamed(f.Signature.Recv().Type(), zapPkgPath, "cacheEntry") && addsRef(f) {
+					// the reference taken directly (load() inlined: incHit(); addRef()) or in a helper of the entry
+					if f != self && p.InZap(f) && f.Signature.Recv() != nil && isNamed(f.Signature.Recv().Type(), zapPkgPath, "cacheEntry") && mustRef(f) {
 						return []uint64{ev | 1}
 					}
 					return nil
 				}
+			}
+			for _, fn := range handOut {
+				fn := fn
+				tr := trFor(fn)
 				pa := newPathAnalysis(fn, tr)
 				pa.run(0)
 				labels := map[string]int{}
